@@ -1028,6 +1028,174 @@ def part_crash(chk, tier, cfg0):
     return dict(points=fired_points, planned=total_points)
 
 
+def part_crash_after_error(chk, tier, cfg0):
+    """Fault sequence: at least two states were written completely; during the next state write the disk is full (one write() on the
+    state file fails with ENOSPC after part of the data), the library reports the error and the engine carries on; the disk has
+    room again; the process dies (SIGKILL, strace injection) at any file-system call of the following state write.  At the end of
+    the run with the write error alone, and after every such death, <file> or <file>.old must be a complete state of the run."""
+    wd = os.path.join(chk.work, "crash_err")
+    os.makedirs(wd, exist_ok=True)
+    exe = vbuild.tool("plain", "esim")
+    strace = shutil.which("strace")
+    so = os.path.join(wd, "partial_write.so")
+    r = common.run_proc(["gcc", "-O1", "-shared", "-fPIC", "-o", so, os.path.join(common.VERIF, "shim", "partial_write.c"), "-ldl"], timeout=120)
+    if not strace or r["rc"] != 0:
+        chk.inconc("crash after write error: strace or shim not available")
+        return dict(points=0)
+    rfreq = 2
+    nsteps = 11
+    cfg = dict(cfg0, config=CRASH_CFG % {"width": "0.02"})
+    xs = traj_x(chk.rng.__class__(chk.seed * 31 + 5), nsteps)
+
+    def scenario(fmt, upto=None):
+        ls = scn_head(cfg, binary_env=(fmt == "binary")) + ["prefix out", "rprefix rst", "rfreq %d" % rfreq, "init"]
+        for i, x in enumerate(xs):
+            if upto is not None and i >= upto:
+                break
+            ls += ["posa 3 %s 0.25 0" % common.fnum(x), "step", "clearerr"]
+        ls.append("abort_here" if upto is not None else "endrun")
+        return "\n".join(ls) + "\n"
+
+    def fresh(d):
+        shutil.rmtree(d, ignore_errors=True)
+        os.makedirs(d)
+        return d
+
+    fname = "rst.colvars.state"
+    total = fired_n = 0
+    for fmt in ("text", "binary"):
+        fd = fresh(os.path.join(wd, fmt))
+        scn = os.path.join(fd, "run.scn")
+        with open(scn, "w") as f:
+            f.write(scenario(fmt))
+        loader = "\n".join(scn_head(cfg) + ["init", "load cand", "flush", "savestr"]) + "\n"
+        # reference states: the file after each completed periodic write of the uninjected run
+        refs = {}
+
+        def ref_run(k):
+            rd = fresh(os.path.join(fd, "ref%d" % k))
+            rs = os.path.join(rd, "ref.scn")
+            with open(rs, "w") as f:
+                f.write(scenario(fmt, upto=k * rfreq + 1))
+            common.run_proc([exe, rs], timeout=120, cwd=rd)
+            pth = os.path.join(rd, fname)
+            return k, (open(pth, "rb").read() if os.path.exists(pth) else None)
+        nper = (nsteps - 1) // rfreq
+        for k, b in common.pmap(ref_run, list(range(1, nper + 1))):
+            if b:
+                refs[hashlib.sha256(b).hexdigest()] = "write%d(step %d)" % (k, k * rfreq)
+        # baseline trace: which write() calls belong to the third state write
+        bd = fresh(os.path.join(fd, "base"))
+        tr = os.path.join(bd, "trace.txt")
+        common.run_proc([strace, "-f", "-e", "trace=" + TRACE_SET, "-o", tr, exe, scn], timeout=120, cwd=bd)
+        calls, why = parse_trace(tr)
+        groups = group_writes(state_calls(calls, fname)) if calls else []
+        if len(groups) < 4 or len(refs) < nper:
+            chk.inconc("crash after write error (%s): %d state writes traced, %d reference states" % (fmt, len(groups), len(refs)))
+            continue
+        nth = 0
+        for g in groups[:2]:
+            nth += sum(1 for c in g if c["name"] in ("write", "writev"))
+        wcalls = [c for c in groups[2] if c["name"] in ("write", "writev")]
+        if not wcalls:
+            chk.inconc("crash after write error (%s): no write call in the third state write" % fmt)
+            continue
+        # the failing write() is the first one of the third state write (issued while the state is being written) or the last one
+        # (issued when the file is closed): the error surfaces at different places in the library
+        variants = [("mid_write", 0)] + ([("at_close", len(wcalls) - 1)] if len(wcalls) > 1 else [])
+        for vname, which in variants:
+            ln = int(wcalls[which]["ret"]) if wcalls[which]["ret"].isdigit() else 0
+            env = {"LD_PRELOAD": so, "PW_PATTERN": fname, "PW_NTH": str(nth + which + 1), "PW_BYTES": str(ln // 2), "PW_MODE": "error",
+                   "PW_UNTIL": str(nth + which + 1)}
+
+            def survivors(pd):
+                cands = []
+                for nm in (fname, fname + ".old"):
+                    pth = os.path.join(pd, nm)
+                    if not os.path.exists(pth):
+                        cands.append("%s missing" % nm)
+                        continue
+                    b = open(pth, "rb").read()
+                    h = hashlib.sha256(b).hexdigest()
+                    ld = fresh(os.path.join(pd, "load_" + ("old" if nm.endswith(".old") else "cur")))
+                    shutil.copy(pth, os.path.join(ld, "cand.colvars.state"))
+                    lr, lev, lsp = common.run_esim("plain", loader, ld, "loader", timeout=120)
+                    le = [e for e in lev if e.get("ev") == "load"]
+                    ok = bool(le) and not le[0].get("err") and not le[0].get("rc") and lr["complete"]
+                    cands.append("%s: %d bytes, loads=%s, equals reference=%s" % (nm, len(b), ok, refs.get(h)))
+                    if ok and refs.get(h):
+                        return True, cands
+                return False, cands
+
+            # phase 1: the write error alone
+            p1 = fresh(os.path.join(fd, "err_" + vname))
+            mk = os.path.join(p1, "marker.txt")
+            tr1 = os.path.join(p1, "trace.txt")
+            rr = common.run_proc([strace, "-f", "-e", "trace=" + TRACE_SET, "-o", tr1, exe, scn], timeout=120, cwd=p1, env=dict(env, PW_MARKER=mk))
+            calls1, why = parse_trace(tr1)
+            if not os.path.exists(mk) or "error" not in open(mk).read() or not calls1 or rr["sig"]:
+                if rr["sig"]:
+                    chk.violation("crash:%s:rst:after_write_error:%s:signal" % (fmt, vname), "the run in which one write() on the state file fails with ENOSPC dies with signal %s: %s" % (
+                        rr["sig"], rr["err"][-300:]), files=[scn])
+                else:
+                    chk.inconc("crash after write error (%s): the failing write did not happen (%s)" % (fmt, why))
+                continue
+            chk.count()
+            ok, cands = survivors(p1)
+            if not ok:
+                chk.violation("crash:%s:rst:after_write_error:%s:end_of_run" % (fmt, vname), "state write 3 fails with ENOSPC after %d of %d bytes of one write(), the run goes on to its end: "
+                              "no complete state of the run can be loaded: %s" % (ln // 2, ln, "; ".join(cands)), files=[scn])
+                continue
+            chk.nontrivial(("crash_after_error", fmt, vname, "end_of_run"))
+            # phase 2: death at every later call on the state file
+            sc1 = state_calls(calls1, fname)
+            idx_err = None
+            for i, c in enumerate(sc1):
+                if c["name"] in ("write", "writev") and "ENOSPC" in c["line"]:
+                    idx_err = i
+            later = sc1[idx_err + 1:] if idx_err is not None else []
+            if idx_err is None:
+                # the shim answers before the kernel sees the call: the failing call is not in the trace; take the calls after the
+                # (nth + which)-th successful write on the state file
+                seen = 0
+                for i, c in enumerate(sc1):
+                    if c["name"] in ("write", "writev"):
+                        seen += 1
+                        if seen == nth + which + (1 if ln // 2 > 0 else 0):
+                            later = sc1[i + 1:]
+                            break
+            later = later[:40]
+            total += len(later)
+
+            def run_point(c2):
+                pd = fresh(os.path.join(fd, "k_%s_%s_%d" % (vname, c2["name"], c2["ordinal"])))
+                tr2 = os.path.join(pd, "trace.txt")
+                common.run_proc([strace, "-f", "-e", "trace=" + TRACE_SET, "-e", "inject=%s:signal=KILL:when=%d" % (c2["name"], c2["ordinal"]),
+                                 "-o", tr2, exe, scn], timeout=120, cwd=pd, env=dict(env, PW_MARKER=os.path.join(pd, "marker.txt")))
+                cl, _ = parse_trace(tr2)
+                killed = bool(cl) and cl[-1]["name"] == "+++" and "killed by SIGKILL" in cl[-1]["line"]
+                if not killed:
+                    return c2, None, None
+                return (c2,) + survivors(pd)
+            bad = {}
+            for c2, ok2, cands2 in common.pmap(run_point, later):
+                if ok2 is None:
+                    chk.inconc("crash after write error (%s): kill at %s#%d did not fire" % (fmt, c2["name"], c2["ordinal"]))
+                    continue
+                fired_n += 1
+                chk.count()
+                chk.nontrivial(("crash_after_error", fmt, vname, c2["name"], c2["ordinal"]))
+                if not ok2:
+                    bad.setdefault("crash:%s:rst:after_write_error:%s:before_%s" % (fmt, vname, c2["name"]), []).append(
+                        "death at %s: %s" % (short_call(c2), "; ".join(cands2)))
+            for key, texts in sorted(bad.items()):
+                chk.violation(key, "state write 3 failed with ENOSPC (reported, run continued); the process then dies during a later state write: "
+                              "no complete state of the run can be loaded from %s or %s.old: %s" % (fname, fname, " || ".join(texts[:3])), files=[scn],
+                              payload={"scenario": "run.scn", "inject": "LD_PRELOAD=partial_write.so PW_MODE=error + strace -e inject=<call>:signal=KILL:when=<n>", "cases": texts[:20]})
+    chk.extra["crash_after_write_error"] = {"kill_points_planned": total, "kill_points_fired": fired_n}
+    return dict(points=fired_n)
+
+
 REPLICA_CFG = """colvarsTrajFrequency 0
 colvar {
   name d
@@ -1406,6 +1574,7 @@ def run(tier, replay):
     b = part_damaged(chk, tier, cfgs, states)
     c = part_crash(chk, tier, cfgs[0])
     cr = part_crash_replica(chk, tier, cfgs[0])
+    ce = part_crash_after_error(chk, tier, cfgs[0])
     d = part_fuzz(chk, tier, cfgs, states)
     emit_damaged(chk, len(cfgs))
 
